@@ -10,7 +10,8 @@ META = {
         "passes both through parse_text_token; R3 every body carried by an envelope is forwarded (the body operand of the message derives "
         "from the envelope's body and is dropped only when empty); R4 a response is offered only to the subscription registered for the "
         "envelope's own node and lane, a request only to the route for its node; an invalid envelope is never delivered, and after a failed delivery exactly the failed writers are evicted (R4b); R5 the multiplexer "
-        "re-queues a stream after every item, removes it on end, and signals readiness before waking."),
+        "re-queues a stream after every item, removes it on end, and signals readiness before waking."
+        ' R10 (= C09.R11) no envelope header makes the reader panic.'),
     "does_not_decide": "equality of node/lane/body for all strings (C09's law); per-source ordering through the multiplexer under all interleavings",
 }
 
